@@ -151,7 +151,9 @@ def explore(run):
     with minibase.Scratch() as sc:
         witnesses(run, sc)
         for i in range(700 if thorough else 28):
-            g, files = W.gen_closed(rng, hostile=rng.random() < 0.4)
+            # a quarter of the graphs define one or two nodes twice (overlapping exports): row labels and ids then differ
+            g, files = W.gen_closed(rng, hostile=rng.random() < 0.4, features={"repeat_nodes": rng.random() < 0.25})
+            twice = {k_[0] for k_ in g.get("repeat", {})}
             try:
                 G, _ = W.build_graph(sc, "g%d" % i, files)
             except Exception as e:  # noqa: BLE001
@@ -159,6 +161,8 @@ def explore(run):
                 return
             gj = W.graph_json(G)
             for uri in G.namespaces[1:]:
+                if uri in twice:
+                    continue        # "each node once" is not defined for a namespace that itself holds a node twice
                 for outgoing in (True, False):
                     case = {"files": files, "uri": uri, "outgoing": outgoing}
                     run.case({"set": i, "uri": uri, "outgoing": outgoing}, tag="write:%s" % ("all" if outgoing else "no-outgoing"))
